@@ -8,6 +8,8 @@ import SpoxModel.Lemmas.FrontIR
 import SpoxModel.Generated.BuildFrontIR
 import SpoxModel.Model.FrontFacts
 import SpoxModel.Generated.FrontFacts
+import SpoxModel.Lemmas.FrontSpec
+import SpoxModel.Lemmas.FrontGrow
 /-!
 # C12 — build and inline are pure, repeatable and independent of process history
 
@@ -120,6 +122,107 @@ theorem pinned_statements_order_dependent :
     inputsOf (FrontIR.run FrontIR.pinnedIR Generated.RenamesIR.ir exP id exReq (fun _ => none)).2 ≠
       inputsOf (FrontIR.run FrontIR.pinnedIR Generated.RenamesIR.ir exP List.reverse exReq (fun _ => none)).2 := by
   decide
+
+/-! ## Round 10: the exact side condition for determinism, and every history of builds -/
+
+/-- `build_deterministic` under `Front.NoClash` (no unlisted Var carries a name that is a key of
+    `inputs` or a requested output name) instead of "every unlisted Var is unnamed": Vars made by the
+    internal `arguments_dict` keep preset names through every build, so the old hypothesis was not an
+    invariant of programs that use them; `NoClash` is evaluated by the driver on every request. -/
+theorem build_deterministic_noclash (P : List Obj) (π π' : List Nat → List Nat)
+    (hπ : ∀ l, (π l).Perm l) (hπ' : ∀ l, (π' l).Perm l) (req : Request) (s : Store)
+    (hkeys : (req.inputs.map (·.name)).Nodup) (hnc : NoClash req s) :
+    build Generated.RenamesIR.ir P π true req s = build Generated.RenamesIR.ir P π' true req s := by
+  rw [goodShape_eq generated_good, build_fixed, build_fixed,
+    body_perm_invariant' P π π' hπ hπ' req s hkeys hnc]
+
+/-- `NoClash` cannot be dropped: argument 1 is unlisted and carries the preset name `"k"`, which is
+    also the key under which argument 0 is listed; both are needed by the output. The graph input
+    `"k"` is then whichever of the two the set yields first — the bytes depend on the set order. -/
+theorem build_deterministic_noclash_counterexample :
+    inputsOf (build Generated.RenamesIR.ir
+        [⟨true, false, "1:[]", [1, 0], []⟩, ⟨true, true, "1:[]", [], []⟩, ⟨true, true, "7:[]", [], []⟩]
+        id true ⟨[⟨"k", 0⟩], [⟨"y", 2⟩], true⟩ (fun v => if v = 1 then some "k" else none)).2 ≠
+    inputsOf (build Generated.RenamesIR.ir
+        [⟨true, false, "1:[]", [1, 0], []⟩, ⟨true, true, "1:[]", [], []⟩, ⟨true, true, "7:[]", [], []⟩]
+        List.reverse true ⟨[⟨"k", 0⟩], [⟨"y", 2⟩], true⟩ (fun v => if v = 1 then some "k" else none)).2 := by
+  decide
+
+/-- One step of a history: `spox.build` (the statement list extracted on this run) on the program as
+    it is at that moment, with the set order of that moment. -/
+structure Step where
+  prog : List Obj
+  π : List Nat → List Nat
+  π' : List Nat → List Nat      -- a second set order (another process / hash seed), for `history_deterministic`
+  req : Request
+
+def stepRun (a : Step) (s : Store) : Store × Except Err Model :=
+  FrontIR.run Generated.BuildFrontIR.ir Generated.RenamesIR.ir a.prog a.π a.req s
+def stepRun' (a : Step) (s : Store) : Store × Except Err Model :=
+  FrontIR.run Generated.BuildFrontIR.ir Generated.RenamesIR.ir a.prog a.π' a.req s
+
+/-- **Every history.** Any number of builds — each on its own program (the process's objects as they
+    are at that moment; ids are creation indices, so older Vars keep theirs), with its own request,
+    flag, set order, succeeding or failing in any way — run one after the other over the same Vars:
+    the `k`-th result is exactly what that build returns when nothing was built before, and at the end
+    every Var's `_name` is what it was at the start. (`build_restores_names` lifted from one build to
+    all reachable states; no bound on the length.) -/
+theorem history_independent (h : List Step) (s : Store) :
+    runHist stepRun h s = (s, h.map (fun a => (stepRun a s).2)) :=
+  runHist_pure stepRun (fun a s => build_statements_restore_names a.prog a.π a.req s) h s
+
+/-- … and the whole history is independent of the set orders met on the way: two runs of the same
+    requests under any two families of set orders (two processes, two hash seeds) return the same list
+    of results. The side conditions are about the *initial* store only — `history_independent` is what
+    carries them to every later step. -/
+theorem history_deterministic (h : List Step) (s : Store)
+    (hok : ∀ a ∈ h, (∀ l, (a.π l).Perm l) ∧ (∀ l, (a.π' l).Perm l) ∧
+      (a.req.inputs.map (·.name)).Nodup ∧ NoClash a.req s) :
+    runHist stepRun h s = runHist stepRun' h s := by
+  rw [history_independent, runHist_pure stepRun'
+    (fun a s => build_statements_restore_names a.prog a.π' a.req s) h s]
+  congr 1
+  apply List.map_congr_left
+  intro a ha
+  obtain ⟨h1, h2, h3, h4⟩ := hok a ha
+  unfold stepRun stepRun'
+  rw [build_statements_eq, build_statements_eq, build_deterministic_noclash a.prog a.π a.π' h1 h2 a.req s h3 h4]
+
+/-- Non-vacuity: a failing build (one Var under two keys → ScopeError inside the block), then a build
+    on a grown program under a reversing set order, then the first request again. -/
+example :
+    (runHist stepRun
+      [⟨exP, id, id, ⟨[⟨"a", 0⟩, ⟨"b", 0⟩], [⟨"y", 2⟩], false⟩⟩,
+       ⟨⟨true, false, "1:[]", [2], []⟩ :: exP, List.reverse, id, ⟨[⟨"p", 1⟩, ⟨"q", 0⟩], [⟨"z", 3⟩], true⟩⟩,
+       ⟨exP, id, id, exReq⟩] (fun _ => none)).2.map inputsOf
+      = [none, some [⟨"p", "1:[]"⟩, ⟨"q", "7:[]"⟩], some [⟨"a", "7:[]"⟩, ⟨"b", "1:[]"⟩]] := by decide
+
+/-- **Regardless of what was constructed afterwards.** Objects newer than everything the request
+    mentions (`Q`, any number, of any kind: values, arguments, nodes with subgraphs that use the old
+    Vars) do not influence the build: same names afterwards, same result — model or error class — for
+    every set order, flag and store. (`WF`: every reference points to an older object — true of every
+    Python program; the driver evaluates it as `wfb` on every program, `Front.wfb_iff`.) Together with
+    `history_independent`, whose steps each carry their own program: a build depends on the Vars it is
+    given and what they were made from — not on what else the process constructed or built, before or after. -/
+theorem build_ignores_newer_objects (Q P : List Obj) (hwf : WF (Q ++ P)) (π : List Nat → List Nat)
+    (hπ : ∀ l, (π l).Perm l) (fixed : Bool) (req : Request) (s : Store)
+    (hin : ∀ e ∈ req.inputs, e.obj < P.length) (hout : ∀ e ∈ req.outputs, e.obj < P.length) :
+    build Generated.RenamesIR.ir (Q ++ P) π fixed req s = build Generated.RenamesIR.ir P π fixed req s := by
+  induction Q with
+  | nil => rfl
+  | cons o Q ih =>
+    have hwf' : WF (Q ++ P) := hwf.2.2
+    rw [List.cons_append, build_cons _ o (Q ++ P) hwf' π hπ fixed req s
+      (fun e he => by have := hin e he; simp only [List.length_append]; omega)
+      (fun e he => by have := hout e he; simp only [List.length_append]; omega)]
+    exact ih hwf'
+
+/-- Non-vacuity: two newer objects (a value using `y`, and an argument) in front of the witness program. -/
+example :
+    inputsOf (build Generated.RenamesIR.ir
+      ([⟨true, true, "9:[]", [], []⟩, ⟨true, false, "1:[]", [2, 0], []⟩] ++ exP) List.reverse true exReq (fun _ => none)).2
+      = some [⟨"a", "7:[]"⟩, ⟨"b", "1:[]"⟩] ∧
+    wfb ([⟨true, true, "9:[]", [], []⟩, ⟨true, false, "1:[]", [2, 0], []⟩] ++ exP) = true := by decide
 
 /-! ## Purity: the statements of spox that write to lasting state (table extracted from /repo) -/
 
